@@ -9,7 +9,7 @@ git clone -q /repo "$M/repo" || exit 2
 rsync -a --exclude .build --exclude replays --exclude evidence --exclude .git /verif/ "$M/verif/"
 cd "$M/verif" || exit 2
 grep -rlE '/verif|/repo' --include='*.go' --include=vcheck --include=go.mod --include='*.sh' . | while read -r f; do
-  sed -i "s#/verif#$M/verif#g; s#\"/repo\"#\"$M/repo\"#g; s#=> /repo#=> $M/repo#g; s# /repo # $M/repo #g; s#/repo/engine#$M/repo/engine#g; s#-repo /repo#-repo $M/repo#g" "$f"
+  sed -i -E "s#/verif([^a-z]|\$)#$M/verif\\1#g; s#\"/repo\"#\"$M/repo\"#g; s#=> /repo#=> $M/repo#g; s# /repo # $M/repo #g; s#/repo/engine#$M/repo/engine#g; s#-repo /repo#-repo $M/repo#g" "$f"
 done
 cp "$M/repo/go.sum" . 2>/dev/null
 only="${1:-}"
